@@ -27,12 +27,13 @@ type pendingReload struct {
 }
 
 type Model struct {
-	cfg     CacheCfg
-	m       map[int]*mEntry
-	now     int64
-	max     uint64
-	reloads map[int]*pendingReload
-	added   uint64 // total weight written by the current op
+	cfg      CacheCfg
+	m        map[int]*mEntry
+	now      int64
+	max      uint64
+	reloads  map[int]*pendingReload
+	added    uint64 // total weight written by the current op
+	optional []expEvent
 	// deferred executor: loader calls that queued executor tasks must still make
 	pending []expLoad
 }
@@ -103,9 +104,11 @@ type expect struct {
 	isList  bool
 	entry   bool // compare entry fields with the model entry after the op
 	removed []expEvent
-	calls   int // expected compute callback invocations (-1 = not checked)
-	saw     *[2]int
-	nilChan bool
+	// removals that may or may not happen (implementation-defined): if reported, the model follows
+	optional []expEvent
+	calls    int // expected compute callback invocations (-1 = not checked)
+	saw      *[2]int
+	nilChan  bool
 	// loader invocations the operation must make (checked when checkLoads)
 	loads      []expLoad
 	checkLoads bool
@@ -315,7 +318,9 @@ func (m *Model) Step(op string, res OpResult, hooks []CalcCall, loads []LoadCall
 			}
 		}
 	case "adv":
-		m.now += atoi64(f[1])
+		if d := atoi64(f[1]); d > 0 && m.now <= math.MaxInt64-d {
+			m.now += d
+		}
 	case "setmax":
 		if m.cfg.MaxSize > 0 || m.cfg.MaxWeight > 0 {
 			m.max = uint64(atoi64(f[1]))
@@ -325,7 +330,7 @@ func (m *Model) Step(op string, res OpResult, hooks []CalcCall, loads []LoadCall
 		for _, kk := range m.liveKeys() {
 			ex.mapRes[kk] = m.m[kk].val
 		}
-	case "keys", "coldest", "hottest":
+	case "keys", "coldest", "hottest", "save":
 		ex.isList = true
 		ex.list = m.liveKeys()
 	case "values":
@@ -399,6 +404,8 @@ func (m *Model) Step(op string, res OpResult, hooks []CalcCall, loads []LoadCall
 		}
 	case "cleanup", "getmax", "wsize", "esize":
 	}
+	ex.optional = m.optional
+	m.optional = nil
 	return ex
 }
 
@@ -432,6 +439,10 @@ func (m *Model) applyLoads(loads []LoadCall, hooks []CalcCall) []expEvent {
 			} else if lc.Kind == "reload" || lc.Kind == "bulkreload" {
 				// not found on reload: the entry is removed
 				evs = append(evs, m.remove(k, otter.CauseInvalidation)...)
+			} else if e := m.m[k]; e != nil && e.exp > m.now {
+				// a Load (the key was absent when the refresh was requested) that reports not-found while the key
+				// has been written in the meantime: whether the entry goes is implementation-defined
+				m.optional = append(m.optional, expEvent{key: k, val: e.val, causes: []otter.DeletionCause{otter.CauseInvalidation}})
 			}
 		}
 		// volunteered keys are cached too
